@@ -76,9 +76,9 @@ func manyMissing(n int) string {
 	return sb.String()
 }
 
-const c10Companion = "parameters: {companionOnly: 7}\nservices:\n  companionSvc: {constructor: fx/lib.NewObj, arguments: [\"%companionOnly%\"]}\n"
+const c10Companion = "parameters: {companionOnly: 7}\nservices:\n  companionSvc: {constructor: fx/lib.NewObj, arguments: [\"%companionOnly%\"], getter: GetCompanionSvc}\n"
 
-var c10Companions = []string{"", "before", "after", "glob"}
+var c10Companions = []string{"", "before", "after", "glob", "comma-in-name", "quote-in-name", "long-multibyte-name"}
 
 var c10PreStates = []string{"absent", "existing", "existing-long", "same-plus-suffix", "same-truncated", "directory", "missing-parent", "dev-full"}
 var c10Faults = []string{"none", "missing-file", "directory-as-input", "empty-glob", "invalid-glob"}
@@ -99,14 +99,23 @@ func c10Eval(t tb, c c10Cell) {
 		pats = append(pats, "main.yaml")
 	}
 	if c.Companion != "" && c.Class != "nothing-processed" {
-		_ = os.WriteFile(filepath.Join(dir, "m-companion.yaml"), []byte(c10Companion), 0o644)
+		name := "m-companion.yaml"
+		switch c.Companion {
+		case "comma-in-name": // legal file names that a careless parser of the -i values would split, reject or mis-measure
+			name = "m,comp,anion.yaml"
+		case "quote-in-name":
+			name = `m"comp anion'.yaml`
+		case "long-multibyte-name": // 70 bytes, 41 characters
+			name = "конфигурация-сервисов-приложения.yaml"
+		}
+		_ = os.WriteFile(filepath.Join(dir, name), []byte(c10Companion), 0o644)
 		switch c.Companion {
 		case "before":
-			pats = append([]string{"m-companion.yaml"}, pats...)
-		case "after":
-			pats = append(pats, "m-companion.yaml")
+			pats = append([]string{name}, pats...)
 		case "glob":
 			pats[0] = "m*.yaml"
+		default:
+			pats = append(pats, name)
 		}
 	}
 	if c.YAML2 != "" {
@@ -220,6 +229,10 @@ func c10Eval(t tb, c c10Cell) {
 			return
 		}
 		genBytes = b
+		if c.Companion != "" && c.Class != "nothing-processed" && !bytes.Contains(b, []byte("GetCompanionSvc")) {
+			fail("exit0-incomplete-output", "exit 0 but the output lacks the getter of the service defined in the companion input file")
+			return
+		}
 		if _, err := parser.ParseFile(token.NewFileSet(), "gen.go", b, parser.AllErrors); err != nil {
 			fail("exit0-incomplete-output", "exit 0 but the output does not parse as a Go file: "+err.Error())
 			return
@@ -335,6 +348,9 @@ func TestC10(t *testing.T) {
 						if !ev.Mine(idx) {
 							continue
 						}
+						if strings.HasSuffix(comp, "-name") && !ev.Thorough() && (idx/16+ev.Seed())%3 != 0 {
+							continue // quick tier: a seed-dependent third of the file-name variants
+						}
 						f.Spelling = idx % 4 // the switches written bare / explicitly / repeated / in front
 						c10Eval(t, c10Cell{Class: cl.name, YAML: cl.yaml, Flags: f, PreState: ps, Fault: fault, WantOK: cl.ok(f), Companion: comp})
 						if deadlinePassed() {
@@ -345,7 +361,7 @@ func TestC10(t *testing.T) {
 			}
 		}
 	}
-	col.Exhaustive(fmt.Sprintf("full matrix: %d configuration classes x 8 flag subsets {--stub, --ignore-missing-params, --ignore-missing-services} x 8 output pre-states x 5 input faults x 4 companion-file arrangements (none / a valid second file before, after, or matched by the same glob), every cell with and without --quiet", len(c10Classes)))
+	col.Exhaustive(fmt.Sprintf("full matrix: %d configuration classes x 8 flag subsets {--stub, --ignore-missing-params, --ignore-missing-services} x 8 output pre-states x 5 input faults x 7 companion-file arrangements (none / a valid second file before, after, or matched by the same glob / named with commas, with quotation marks, with 41 multi-byte characters), every cell with and without --quiet", len(c10Classes)))
 
 	// random configurations inside random cells
 	setRapidChecks(pick(25, 2000))
